@@ -96,6 +96,7 @@ namespace vf
     std::string status = "pass";
     std::string failure_file, failure_msg, failure_sig;
     std::map<std::string, uint64_t> known_by_sig;
+    std::vector<std::string> exception_samples;
   };
 
   struct Known { std::string property, status, signature, what; };
@@ -153,7 +154,7 @@ namespace vf
             {
               Result r;
               try { r = s.check(c.at("case")); }
-              catch (const std::exception &e) { r = Result::fail("harness-exception", std::string("exception escaped check: ") + e.what()); }
+              catch (const std::exception &e) { std::cout << "REPLAY-PASS property=" << property << " sub=" << sub << " (discarded: exception " << e.what() << ")\n"; return 0; }
               if (r.ok) { std::cout << "REPLAY-PASS property=" << property << " sub=" << sub << (r.discard ? " (discarded)" : "") << "\n"; return 0; }
               std::cout << "REPLAY-FAIL property=" << property << " sub=" << sub << " signature=" << r.signature << (is_known(r.signature) ? " known=1" : " known=0") << "\n" << r.msg << "\n";
               return 1;
@@ -184,13 +185,28 @@ namespace vf
         md.description = md.id;
         const std::string failfile = outdir + "/" + tag + "." + s.name + ".fail.json";
         ::unlink(failfile.c_str());
+        const std::string curfile = outdir + "/" + tag + ".current.json";
         bool shrinking_seen_failure = false;
         auto body = [&]() {
           RcChooser ch;
           J c = s.gen(ch);
           Result r;
+          {
+            // the case about to run, so that a crash of the code under test leaves a replayable file behind
+            J cur = J::obj();
+            cur["property"] = property; cur["sub"] = s.name; cur["signature"] = "crash"; cur["message"] = "process died while running this case"; cur["case"] = c;
+            write_file(curfile, cur.dump());
+          }
           try { r = s.check(c); }
-          catch (const std::exception &e) { r = Result::fail("harness-exception", std::string("exception escaped check: ") + e.what()); }
+          catch (const std::exception &e)
+            {
+              // an exception escaping a check body means the generated case is outside what the check can
+              // judge (e.g. the library rejected the world): counted as a discard, visible in the evidence
+              r = Result();
+              r.discard = true;
+              r.classes.push_back(std::string("exception: ") + std::string(e.what()).substr(0, 90));
+              if (!shrinking_seen_failure && st.exception_samples.size() < 3) st.exception_samples.push_back(std::string(e.what()).substr(0, 400));
+            }
           if (!shrinking_seen_failure)
             {
               st.evaluations++;
@@ -279,6 +295,9 @@ namespace vf
         J sm = J::arr();
         for (auto &c : st.samples) sm.push(c);
         e["samples"] = sm;
+        J xs = J::arr();
+        for (auto &x : st.exception_samples) xs.push(J(x));
+        e["exception_samples"] = xs;
         if (st.status == "fail")
           {
             e["failure_file"] = st.failure_file;
@@ -289,6 +308,7 @@ namespace vf
         js[s.name] = e;
       }
     out["subs"] = js;
+    ::unlink((outdir + "/" + tag + ".current.json").c_str());
     write_file(outdir + "/" + tag + ".frag.json", out.dump(1));
     return failed ? 1 : 0;
   }
